@@ -172,16 +172,11 @@ theorem covers_fam {v : Vrp} {r : Net} (h : covers v r = true) : v.fam = r.fam :
 
 /-- **the state computed by `validate` is the RFC 6811 state of the stored VRP set** -/
 theorem validate_state {t : Table} (hi : TableInv t) {r : Net} (hn : NetWF r) (localAsn : Nat)
-    (path : Option (List Seg)) (hne : t.trie r.fam ≠ []) :
+    (path : Option (List Seg)) :
     (t.validate localAsn r path).map (·.state)
       = some (rfc6811 (abs t) (routeOrigin localAsn path) r) := by
   have hti := hi.trie r.fam
-  simp only [Table.validate]
-  have : (t.trie r.fam).isEmpty = false := by
-    cases h : t.trie r.fam with
-    | nil => exact absurd h hne
-    | cons _ _ => rfl
-  simp only [this, Bool.false_eq_true, if_false, Option.map_some, Option.some.injEq]
+  simp only [Table.validate, Option.map_some, Option.some.injEq]
   rw [finish_state]
   obtain ⟨hm, hua, hul⟩ := foldl_validateStep (t.trie r.fam) r (routeOrigin localAsn path)
     (List.range (min r.len (min (r.addr.length * 8) 255) + 1)) {}
@@ -340,19 +335,7 @@ def OpWF : Op → Prop
   | .reset _ vs => ∀ v ∈ vs, NetWF v.1
   | .val n _ => NetWF n
   | .iter _ => True
-  | .display _ n _ => NetWF n
-
-/-- the recorded open finding is not exercised: no `validate` while the VRP set of the
-    route's family is empty -/
-def nonEmptyVals : List Vrp → List Op → Bool
-  | _, [] => true
-  | s, .val r _ :: ops => !(famOf s r.fam).isEmpty && nonEmptyVals s ops
-  | s, .ins c n ml a :: ops => nonEmptyVals (sStep s (.ins c n ml a)) ops
-  | s, .rem c n ml a :: ops => nonEmptyVals (sStep s (.rem c n ml a)) ops
-  | s, .drop c :: ops => nonEmptyVals (sStep s (.drop c)) ops
-  | s, .reset c vs :: ops => nonEmptyVals (sStep s (.reset c vs)) ops
-  | s, .iter _ :: ops => nonEmptyVals s ops
-  | s, .display _ r _ :: ops => !(famOf s r.fam).isEmpty && nonEmptyVals s ops
+  | .display _ _ n _ => NetWF n
 
 theorem rfc6811_congr {s1 s2 : List Vrp} (h : ∀ v, v ∈ s1 ↔ v ∈ s2) (o : Option Nat) (r : Net) :
     rfc6811 s1 o r = rfc6811 s2 o r := by
@@ -376,12 +359,12 @@ theorem trie_ne_nil_of_fam {t : Table} {s : List Vrp} (hr : R t s) {f : Fam}
     rw [abs_fam_filter, hnil] at this
     simp [absTrie] at this
 
-theorem step_sim (la : Nat) {t : Table} {s : List Vrp} (hi : TableInv t) (hr : R t s) (op : Op)
+theorem step_sim (la ga : Nat) {t : Table} {s : List Vrp} (hi : TableInv t) (hr : R t s) (op : Op)
     (hwf : OpWF op) :
-    (∀ c n ml a, op = .ins c n ml a → ∃ t', step la t op = .ok (t', none) ∧ TableInv t' ∧ R t' (sStep s op)) ∧
-    (∀ c n ml a, op = .rem c n ml a → ∃ t', step la t op = .ok (t', none) ∧ TableInv t' ∧ R t' (sStep s op)) ∧
-    (∀ c, op = .drop c → ∃ t', step la t op = .ok (t', none) ∧ TableInv t' ∧ R t' (sStep s op)) ∧
-    (∀ c vs, op = .reset c vs → ∃ t', step la t op = .ok (t', none) ∧ TableInv t' ∧ R t' (sStep s op)) := by
+    (∀ c n ml a, op = .ins c n ml a → ∃ t', step la ga t op = .ok (t', none) ∧ TableInv t' ∧ R t' (sStep s op)) ∧
+    (∀ c n ml a, op = .rem c n ml a → ∃ t', step la ga t op = .ok (t', none) ∧ TableInv t' ∧ R t' (sStep s op)) ∧
+    (∀ c, op = .drop c → ∃ t', step la ga t op = .ok (t', none) ∧ TableInv t' ∧ R t' (sStep s op)) ∧
+    (∀ c vs, op = .reset c vs → ∃ t', step la ga t op = .ok (t', none) ∧ TableInv t' ∧ R t' (sStep s op)) := by
   refine ⟨?_, ?_, ?_, ?_⟩
   · rintro c n ml a rfl
     obtain ⟨h1, h2⟩ := insert_spec hi hr hwf ⟨ml, a, c⟩
@@ -397,9 +380,9 @@ theorem step_sim (la : Nat) {t : Table} {s : List Vrp} (hi : TableInv t) (hr : R
     exact ⟨_, rfl, h1, h2⟩
 
 theorem checkVal_ok {t : Table} {s : List Vrp} (hi : TableInv t) (hr : R t s) (la : Nat) {r : Net}
-    (hn : NetWF r) (path : Option (List Seg)) (hne : (famOf s r.fam).isEmpty = false) :
+    (hn : NetWF r) (path : Option (List Seg)) :
     ∃ res, t.validate la r path = some res ∧ checkVal s la r path (.v res) = none := by
-  have hst := validate_state hi hn la path (trie_ne_nil_of_fam hr hne)
+  have hst := validate_state hi hn la path
   cases hv : t.validate la r path with
   | none => simp [hv] at hst
   | some res =>
@@ -415,10 +398,10 @@ theorem checkVal_ok {t : Table} {s : List Vrp} (hi : TableInv t) (hr : R t s) (l
       simp
 
 theorem checkShow_ok {t : Table} {s : List Vrp} (hi : TableInv t) (hr : R t s) (la : Nat) (st : VState) {r : Net}
-    (hn : NetWF r) (path : Option (List Seg)) (hne : (famOf s r.fam).isEmpty = false) :
+    (hn : NetWF r) (path : Option (List Seg)) :
     ∃ res, t.validate la r path = some res ∧
       checkShow s la st r path (.api (some (res.state, res.reason)) (decide (res.state = st))) = none := by
-  have hst := validate_state hi hn la path (trie_ne_nil_of_fam hr hne)
+  have hst := validate_state hi hn la path
   cases hv : t.validate la r path with
   | none => simp [hv] at hst
   | some res =>
@@ -450,72 +433,70 @@ theorem checkIter_ok {t : Table} {s : List Vrp} (hi : TableInv t) (hr : R t s) (
     simp only [List.all_eq_true, decide_eq_true_eq]; exact fun v hv => (hmem v).2 hv
   simp [h1, h2]
 
-theorem run_sim (la : Nat) (ops : List Op) : ∀ (t : Table) (s : List Vrp) (i : Nat),
-    TableInv t → R t s → (∀ op ∈ ops, OpWF op) → nonEmptyVals s ops = true →
-    ∃ t' obs, runFrom la t ops = .ok (t', obs) ∧ checkFrom la i s ops obs = .ok ∧
+theorem run_sim (la ga : Nat) (ops : List Op) : ∀ (t : Table) (s : List Vrp) (i : Nat),
+    TableInv t → R t s → (∀ op ∈ ops, OpWF op) →
+    ∃ t' obs, runFrom la ga t ops = .ok (t', obs) ∧ checkFrom la ga i s ops obs = .ok ∧
       TableInv t' ∧ R t' (ops.foldl sStep s) := by
   induction ops with
-  | nil => intro t s i hi hr _ _; exact ⟨t, [], rfl, rfl, hi, hr⟩
+  | nil => intro t s i hi hr _; exact ⟨t, [], rfl, rfl, hi, hr⟩
   | cons op ops ih =>
-    intro t s i hi hr hwf hne
+    intro t s i hi hr hwf
     have hwf0 := hwf op (by simp)
     have hwf' : ∀ o ∈ ops, OpWF o := fun o ho => hwf o (by simp [ho])
-    obtain ⟨s1, s2, s3, s4⟩ := step_sim la hi hr op hwf0
+    obtain ⟨s1, s2, s3, s4⟩ := step_sim la ga hi hr op hwf0
     cases op with
     | ins c n ml a =>
       obtain ⟨t1, hs, hi1, hr1⟩ := s1 c n ml a rfl
-      obtain ⟨t', obs, hrun, hchk, hi', hr'⟩ := ih t1 _ (i + 1) hi1 hr1 hwf' (by simpa [nonEmptyVals] using hne)
+      obtain ⟨t', obs, hrun, hchk, hi', hr'⟩ := ih t1 _ (i + 1) hi1 hr1 hwf'
       exact ⟨t', obs, by simp [runFrom, hs, hrun], by simpa [checkFrom] using hchk, hi', by simpa using hr'⟩
     | rem c n ml a =>
       obtain ⟨t1, hs, hi1, hr1⟩ := s2 c n ml a rfl
-      obtain ⟨t', obs, hrun, hchk, hi', hr'⟩ := ih t1 _ (i + 1) hi1 hr1 hwf' (by simpa [nonEmptyVals] using hne)
+      obtain ⟨t', obs, hrun, hchk, hi', hr'⟩ := ih t1 _ (i + 1) hi1 hr1 hwf'
       exact ⟨t', obs, by simp [runFrom, hs, hrun], by simpa [checkFrom] using hchk, hi', by simpa using hr'⟩
     | drop c =>
       obtain ⟨t1, hs, hi1, hr1⟩ := s3 c rfl
-      obtain ⟨t', obs, hrun, hchk, hi', hr'⟩ := ih t1 _ (i + 1) hi1 hr1 hwf' (by simpa [nonEmptyVals] using hne)
+      obtain ⟨t', obs, hrun, hchk, hi', hr'⟩ := ih t1 _ (i + 1) hi1 hr1 hwf'
       exact ⟨t', obs, by simp [runFrom, hs, hrun], by simpa [checkFrom] using hchk, hi', by simpa using hr'⟩
     | reset c vs =>
       obtain ⟨t1, hs, hi1, hr1⟩ := s4 c vs rfl
-      obtain ⟨t', obs, hrun, hchk, hi', hr'⟩ := ih t1 _ (i + 1) hi1 hr1 hwf' (by simpa [nonEmptyVals] using hne)
+      obtain ⟨t', obs, hrun, hchk, hi', hr'⟩ := ih t1 _ (i + 1) hi1 hr1 hwf'
       exact ⟨t', obs, by simp [runFrom, hs, hrun], by simpa [checkFrom] using hchk, hi', by simpa using hr'⟩
     | val r path =>
-      simp only [nonEmptyVals, Bool.and_eq_true, Bool.not_eq_true'] at hne
-      obtain ⟨res, hv, hc⟩ := checkVal_ok hi hr la hwf0 path hne.1
-      obtain ⟨t', obs, hrun, hchk, hi', hr'⟩ := ih t s (i + 1) hi hr hwf' hne.2
+      obtain ⟨res, hv, hc⟩ := checkVal_ok hi hr la hwf0 path
+      obtain ⟨t', obs, hrun, hchk, hi', hr'⟩ := ih t s (i + 1) hi hr hwf'
       refine ⟨t', .v res :: obs, by simp [runFrom, step, hv, hrun], ?_, hi', by simpa [sStep] using hr'⟩
       simp [checkFrom, hc, hchk]
-    | display st r path =>
-      simp only [nonEmptyVals, Bool.and_eq_true, Bool.not_eq_true'] at hne
-      obtain ⟨res, hv, hc⟩ := checkShow_ok hi hr la st hwf0 path hne.1
-      obtain ⟨t', obs, hrun, hchk, hi', hr'⟩ := ih t s (i + 1) hi hr hwf' hne.2
+    | display loc st r path =>
+      obtain ⟨res, hv, hc⟩ := checkShow_ok hi hr (if loc then ga else la) st hwf0 path
+      obtain ⟨t', obs, hrun, hchk, hi', hr'⟩ := ih t s (i + 1) hi hr hwf'
       refine ⟨t', .api (some (res.state, res.reason)) (decide (res.state = st)) :: obs,
         by simp [runFrom, step, hv, hrun], ?_, hi', by simpa [sStep] using hr'⟩
       simp [checkFrom, hc, hchk]
     | iter f =>
       obtain ⟨l, hl, hc⟩ := checkIter_ok hi hr f
-      obtain ⟨t', obs, hrun, hchk, hi', hr'⟩ := ih t s (i + 1) hi hr hwf' (by simpa [nonEmptyVals] using hne)
+      obtain ⟨t', obs, hrun, hchk, hi', hr'⟩ := ih t s (i + 1) hi hr hwf'
       refine ⟨t', .it l :: obs, by simp [runFrom, step, hl, hrun], ?_, hi', by simpa [sStep] using hr'⟩
       simp [checkFrom, hc, hchk]
 
 def CaseWF (c : Case) : Prop := ∀ op ∈ c.ops, OpWF op
 
-theorem check_run_ok_partial (c : Case) (hwf : CaseWF c) (hne : nonEmptyVals [] c.ops = true) :
+theorem check_run_ok (c : Case) (hwf : CaseWF c) :
     Spec.check c (run c) = .ok := by
-  obtain ⟨t', obs, hrun, hchk, _, _⟩ := run_sim c.localAsn c.ops {} [] 0 TableInv.empty R.empty hwf hne
+  obtain ⟨t', obs, hrun, hchk, _, _⟩ := run_sim c.localAsn c.globalAsn c.ops {} [] 0 TableInv.empty R.empty hwf
   simp [run, hrun, Spec.check, hchk]
 
 /-! ## histories: the table is the set fold (no validate needed) -/
 
-theorem run_ok (la : Nat) (ops : List Op) : ∀ (t : Table) (s : List Vrp),
+theorem run_ok (la ga : Nat) (ops : List Op) : ∀ (t : Table) (s : List Vrp),
     TableInv t → R t s → (∀ op ∈ ops, OpWF op) →
-    ∃ t' obs, runFrom la t ops = .ok (t', obs) ∧ TableInv t' ∧ R t' (ops.foldl sStep s) := by
+    ∃ t' obs, runFrom la ga t ops = .ok (t', obs) ∧ TableInv t' ∧ R t' (ops.foldl sStep s) := by
   induction ops with
   | nil => intro t s hi hr _; exact ⟨t, [], rfl, hi, hr⟩
   | cons op ops ih =>
     intro t s hi hr hwf
     have hwf0 := hwf op (by simp)
     have hwf' : ∀ o ∈ ops, OpWF o := fun o ho => hwf o (by simp [ho])
-    obtain ⟨s1, s2, s3, s4⟩ := step_sim la hi hr op hwf0
+    obtain ⟨s1, s2, s3, s4⟩ := step_sim la ga hi hr op hwf0
     cases op with
     | ins c n ml a =>
       obtain ⟨t1, hs, hi1, hr1⟩ := s1 c n ml a rfl
@@ -538,9 +519,9 @@ theorem run_ok (la : Nat) (ops : List Op) : ∀ (t : Table) (s : List Vrp),
       cases hv : t.validate la r path with
       | none => exact ⟨t', .unvalidated :: obs, by simp [runFrom, step, hv, hrun], hi', by simpa [sStep] using hr'⟩
       | some res => exact ⟨t', .v res :: obs, by simp [runFrom, step, hv, hrun], hi', by simpa [sStep] using hr'⟩
-    | display st r path =>
+    | display loc st r path =>
       obtain ⟨t', obs, hrun, hi', hr'⟩ := ih t s hi hr hwf'
-      cases hv : t.validate la r path with
+      cases hv : t.validate (if loc then ga else la) r path with
       | none => exact ⟨t', .api none false :: obs, by simp [runFrom, step, hv, hrun], hi', by simpa [sStep] using hr'⟩
       | some res =>
         exact ⟨t', .api (some (res.state, res.reason)) (decide (res.state = st)) :: obs,
